@@ -12,7 +12,7 @@ CONSTANTS
   DSeqs = {1, 11, 111, 1111}
   GSeqs = {1, 11, 111, 1111}
   OSeqs = {1, 11, 111, 1111}
-  MaxGroupsD = 8
+  MaxGroupsD = 10
 INIT Init
 NEXT Next
 INVARIANTS TypeOK InvPlacement InvSandbox InvLimits InvIngress InvEgress InvIngressOther InvEgressOther InvPositive InvComplete InvTornDown
